@@ -280,4 +280,63 @@ theorem init_spec (arrays : List Nat) (p : Nat) :
     (init arrays p).pts = p := by
   simp [init, setInterpolationPoints, updateParticleArrays, createNnps, Bound, Fresh]
 
+/-! ### staging of the requested property into `temp_prop` -/
+
+section Staging
+variable {α : Type} [OfNat α 0]
+
+theorem stageStep_self (env : Nat → ArrData α) (prop : String) (temp : Temp α) (o : Nat) :
+    stageStep env prop temp o o = stagedValues (env o) prop := by
+  simp [stageStep]
+
+theorem stageStep_other (env : Nat → ArrData α) (prop : String) (temp : Temp α) (o x : Nat)
+    (h : x ≠ o) : stageStep env prop temp o x = temp x := by
+  simp [stageStep, h]
+
+/-- the staging loop leaves the `temp_prop` of every other object alone -/
+theorem stage_not_mem (env : Nat → ArrData α) (prop : String) (arrays : List Nat)
+    (temp : Temp α) (o : Nat) (h : o ∉ arrays) : stage env prop arrays temp o = temp o := by
+  induction arrays generalizing temp with
+  | nil => rfl
+  | cons a as ih =>
+    have ha : o ≠ a := fun e => h (by simp [e])
+    have has : o ∉ as := fun e => h (by simp [e])
+    show stage env prop as (stageStep env prop temp a) o = temp o
+    rw [ih _ has, stageStep_other env prop temp a o ha]
+
+/-- …and overwrites that of every array it visits, whatever was there -/
+theorem stage_mem (env : Nat → ArrData α) (prop : String) (arrays : List Nat)
+    (temp : Temp α) (o : Nat) (h : o ∈ arrays) :
+    stage env prop arrays temp o = stagedValues (env o) prop := by
+  induction arrays generalizing temp with
+  | nil => simp at h
+  | cons a as ih =>
+    show stage env prop as (stageStep env prop temp a) o = stagedValues (env o) prop
+    by_cases has : o ∈ as
+    · exact ih _ has
+    · have hoa : o = a := by
+        rcases List.mem_cons.mp h with e | e
+        · exact e
+        · exact absurd e has
+      rw [stage_not_mem env prop as _ o has, hoa, stageStep_self]
+
+theorem hrun_s (h : HState α) (ops : List (HOp α)) :
+    (hrun h ops).s = run h.s (bindOps ops) := by
+  induction ops generalizing h with
+  | nil => rfl
+  | cons op rest ih =>
+    cases op with
+    | bind b =>
+      show (hrun (hstep h (HOp.bind b)) rest).s = run h.s (b :: bindOps rest)
+      rw [ih]; rfl
+    | interp env prop =>
+      show (hrun (hstep h (HOp.interp env prop)) rest).s = run h.s (bindOps rest)
+      rw [ih]; rfl
+
+theorem hrun_append_singleton (h : HState α) (ops : List (HOp α)) (op : HOp α) :
+    hrun h (ops ++ [op]) = hstep (hrun h ops) op := by
+  simp [hrun, List.foldl_append]
+
+end Staging
+
 end PysphVerif.Interp
